@@ -55,13 +55,30 @@ def make_test(cfg):
         # the documented defaults: no estimator / bet and no eta / lam given (fixed alternative half-way between t and u,
         # fixed bet 1/2) - cfg["kw"] holds exactly those default values
         args.pop("estim", None), args.pop("bet", None), kw.pop("eta", None), kw.pop("lam", None)
-    u0 = cfg.get("u0")
-    if u0:
+    u0, N0 = cfg.get("u0"), cfg.get("N0")
+    g0 = bool(cfg.get("g0")) and "g" in kw
+    if u0 or N0 or g0:
         # the audit code builds its tests before margins are known and installs the bound afterwards (`test.u = ...`):
-        # what counts is the bound in force when the test is used
-        args["u"] = 1 if u0 == "default" else (u * 1.25 if u0 == "higher" else u * 0.8)
-        test = NonnegMean(**args, **kw)
+        # what counts is the bound in force when the test is used. Likewise the number of cards (`test.N = ...`, a corrected
+        # count). The object may have been used in between (a first estimate, a first round under the provisional values)
+        if u0:
+            args["u"] = 1 if u0 == "default" else (u * 1.25 if u0 == "higher" else u * 0.8)
+        if N0 and cfg["N"] is not None:
+            args["N"] = int(cfg["N"]) + 3 if N0 == "higher" else max(2, int(cfg["N"]) - 2)
+        kw_c = dict(kw)
+        if g0:
+            kw_c["g"] = kw["g"] + 0.05   # (the padding too may be set on the object later: `test.g = ...`)
+        test = NonnegMean(**args, **kw_c)
+        if g0:
+            test.g = kw["g"]
+        if cfg.get("used0"):
+            try:
+                test.test(np.array([args["u"] / 2, 0.0][: int(min(2, args["N"]))], dtype=float))
+            except Exception:  # noqa: the provisional values may not suit each other; nothing is claimed about that call
+                pass
         test.u = u
+        if N0 and cfg["N"] is not None:
+            test.N = int(cfg["N"])
         return test
     return NonnegMean(**args, **kw)
 
@@ -108,6 +125,9 @@ def config(draw, family, dyadic=False, max_N=60, min_N=1, ut=None, dyadic_g=Fals
     kw = {}
     cfg = {"family": fam, "estim": None, "bet": None, "N": N, "u": u, "t": t, "random_order": True,
            "u0": draw(st.sampled_from([None, None, None, "higher", "lower", "default"]))}
+    cfg["N0"] = draw(st.sampled_from([None, None, None, None, "higher", "lower"])) if N is not None else None
+    cfg["used0"] = draw(st.booleans())
+    cfg["g0"] = draw(st.integers(0, 3)) == 0
     eta = t + (u - t) * draw(_frac())
     if not (t < eta < u):
         eta = (t + u) / 2
@@ -161,7 +181,7 @@ def config(draw, family, dyadic=False, max_N=60, min_N=1, ut=None, dyadic_g=Fals
         # (the finite-population SPRT documents that it refuses random_order=False: checked in C11)
         cfg["random_order"] = draw(st.sampled_from([True, True, True, False])) if base != "sprt-fin" else True
     cfg["decoy"] = draw(st.sampled_from([False, False, True]))
-    if base in ("alpha-fixed", "bet-fixed") and cfg["u0"] is None and u <= 2 and draw(st.integers(0, 4)) == 0:
+    if base in ("alpha-fixed", "bet-fixed") and cfg["u0"] is None and cfg["N0"] is None and u <= 2 and draw(st.integers(0, 4)) == 0:
         cfg["implicit"] = True
         if base == "alpha-fixed":
             kw["eta"] = t + (u - t) / 2
